@@ -111,6 +111,8 @@ Gids == {JobDefs[d].pids[1] : d \in 1..Len(JobDefs)}
 PropOK(o) ==
   /\ (o.prompt => o.tty = ShellPg)                         \* prompt => the shell owns the terminal
   /\ (~o.prompt => o.tty = Ev.fgexp)                       \* a foreground job runs => it owns the terminal
+  /\ (o.prompt /\ Ev.fgrun # 0 =>                          \* the prompt comes back only when no process of the foreground job runs
+        \A p \in LiveObs(o, Ev.fgrun) : o.st[ToString(p)] # "R")
   /\ \A p \in Labels : o.st[ToString(p)] # "X" => o.pg[ToString(p)] = GidOf(p)   \* own group, led by the first stage
   /\ (Ev.ev = "ctrlz" => \A p \in LiveObs(o, Ev.tgt) : o.st[ToString(p)] = "T")     \* Ctrl-Z stops the whole pipeline
   /\ (Ev.ev \in {"fg", "bg"} /\ Ev.tgt # 0 => \A p \in LiveObs(o, Ev.tgt) : o.st[ToString(p)] = "R")  \* fg / bg resume all of it
